@@ -22,7 +22,7 @@ func init() {
 		[]string{"uint8 arithmetic wraps"},
 		runC09)
 	register("C10",
-		"GBNHS-1: in serverHandshake the N echoed in the SYN reply and the argument of setN are the same value, read from the N field of a received PacketSYN and proved <= 254; the 'resent' shortcut can only be taken after a SYN was processed. GBNHS-2: in clientHandshake the SYNACK is sent only under respSYN.N == cfg.n and the unequal leg returns an error. GBNHS-3: while waiting for SYN a successfully parsed non-SYN packet cannot complete the handshake without another receive (client: any type; server: except SYNACK/DATA after a restart). GBNHS-4: NewClientConn rejects n == 255 before the config is built. GBNHS-5: in both handshake functions every blocking wait on the local packet channel is preceded - from function entry and from the point where the previous packet was taken - by a send attempt on the local token channel that lets the reader goroutine perform the next receive (so a stale packet that is ignored does not leave the handshake waiting for a timeout). Not decided: convergence under loss/duplication/stale packets and success once the transport behaves (liveness).",
+		"GBNHS-1: in serverHandshake the N echoed in the SYN reply and the argument of setN are the same value, read from the N field of a received PacketSYN and proved <= 254; the 'resent' shortcut can only be taken after a SYN was processed. GBNHS-2: in clientHandshake the SYNACK is sent only under respSYN.N == cfg.n and the unequal leg returns an error. GBNHS-3: while waiting for SYN a successfully parsed non-SYN packet cannot complete the handshake without another receive (client: any type; server: except SYNACK/DATA after a restart). GBNHS-4: NewClientConn rejects n == 255 before the config is built. GBNHS-6: every blocking wait of a handshake function that has a timeout alternative is entered with a freshly armed timeout (time.After evaluated, or the timer Reset, on every path from the wait back to itself); every nil return of serverHandshake outside the quit/ctx cases is preceded by setN. GBNHS-5: in both handshake functions every blocking wait on the local packet channel is preceded - from function entry and from the point where the previous packet was taken - by a send attempt on the local token channel that lets the reader goroutine perform the next receive (so a stale packet that is ignored does not leave the handshake waiting for a timeout). Not decided: convergence under loss/duplication/stale packets and success once the transport behaves (liveness).",
 		nil,
 		runC10)
 }
@@ -1133,6 +1133,53 @@ func runC10(c *Checker) {
 	}
 	c.floor("GBNHS-3", 2)
 
+	// ---- GBNHS-1 (cont.): the server never reports a completed handshake without having adopted N ----
+	{
+		exitBodies := map[*ssa.BasicBlock]bool{}
+		allInstrs(sh, func(in ssa.Instruction) {
+			if sel, ok := in.(*ssa.Select); ok {
+				cases, _ := w.selectCases(sel)
+				for _, scs := range cases {
+					if !scs.IsSend && scs.Body != nil && !isByteSliceChan(scs.Chan) {
+						exitBodies[scs.Body] = true
+					}
+				}
+			}
+		})
+		isSetN := func(in ssa.Instruction) bool {
+			ci, ok := in.(ssa.CallInstruction)
+			if !ok {
+				return false
+			}
+			sc := ci.Common().StaticCallee()
+			return sc != nil && sc.Name() == "setN"
+		}
+		bad := ""
+		allInstrs(sh, func(in ssa.Instruction) {
+			ret, ok := in.(*ssa.Return)
+			if !ok || bad != "" || exitBodies[ret.Block()] || len(ret.Results) == 0 {
+				return
+			}
+			succ := false
+			for _, v := range expandValues(ret.Results[len(ret.Results)-1]) {
+				if isNilConst(v) {
+					succ = true
+				}
+			}
+			if succ && pathFromEntry(sh, ret, isSetN) {
+				bad = w.pos(instrPos(ret))
+			}
+		})
+		c.decide(bad == "", "GBNHS-1", "serverHandshake|every completion adopts N", sh.Pos(), "no nil return outside the quit/ctx cases without a preceding setN",
+			"the server can report a completed handshake at "+bad+" without calling setN: it enters the data phase with the default window instead of the one it echoed to the client")
+	}
+
+	// ---- GBNHS-6: the handshake timeout is re-armed for every wait ----
+	for _, fn := range []*ssa.Function{ch, sh} {
+		ruleHandshakeTimerRearmed(c, fn)
+	}
+	c.floor("GBNHS-6", 2)
+
 	// ---- GBNHS-5: the handshake reader is re-armed before every wait for a packet ----
 	for _, fn := range []*ssa.Function{ch, sh} {
 		ruleReaderRearmed(c, fn)
@@ -1366,4 +1413,77 @@ func isRestartFlag(fn *ssa.Function, phi *ssa.Phi) bool {
 		}
 	}
 	return false
+}
+
+func isByteSliceChan(v ssa.Value) bool {
+	ch, ok := v.Type().Underlying().(*types.Chan)
+	if !ok {
+		return false
+	}
+	sl, ok := ch.Elem().Underlying().(*types.Slice)
+	return ok && types.Identical(sl.Elem(), types.Typ[types.Byte])
+}
+
+// ruleHandshakeTimerRearmed: a blocking select of a handshake function that has a timeout
+// alternative must get a freshly armed timeout every time it is entered: on every path
+// from the select back to itself the timer channel is produced anew (time.After) or the
+// timer is Reset. Otherwise a timeout that fired once never fires again and a second loss
+// blocks the handshake forever.
+func ruleHandshakeTimerRearmed(c *Checker, fn *ssa.Function) {
+	w := c.w
+	isTimeChan := func(v ssa.Value) bool {
+		ch, ok := v.Type().Underlying().(*types.Chan)
+		if !ok {
+			return false
+		}
+		nt := namedOf(ch.Elem())
+		return nt != nil && nt.Obj().Pkg() != nil && nt.Obj().Pkg().Path() == "time" && nt.Obj().Name() == "Time"
+	}
+	n := 0
+	allInstrs(fn, func(in ssa.Instruction) {
+		sel, ok := in.(*ssa.Select)
+		if !ok || !sel.Blocking {
+			return
+		}
+		cases, _ := w.selectCases(sel)
+		for _, sc := range cases {
+			if sc.IsSend || !isTimeChan(sc.Chan) {
+				continue
+			}
+			n++
+			key := fmt.Sprintf("%s|timeout-%d re-armed for every wait", fnName(fn), n)
+			arming := map[ssa.Instruction]bool{}
+			cv := unwrapLoadAlloc(sc.Chan)
+			switch x := cv.(type) {
+			case *ssa.Call:
+				if staticCalleeIs(x.Common(), "time", "", "After") || staticCalleeIs(x.Common(), "time", "", "Tick") {
+					arming[x] = true
+				}
+			case *ssa.UnOp:
+				// load of (*time.Timer).C
+				if fa, ok := x.X.(*ssa.FieldAddr); ok && x.Op == token.MUL {
+					if nt := namedOf(fa.X.Type()); nt != nil && nt.Obj().Name() == "Timer" {
+						timer := unwrapLoadAlloc(fa.X)
+						allInstrs(fn, func(i2 ssa.Instruction) {
+							call, ok := i2.(*ssa.Call)
+							if !ok {
+								return
+							}
+							s := call.Common().StaticCallee()
+							if s != nil && s.Name() == "Reset" && len(call.Common().Args) > 0 && unwrapLoadAlloc(call.Common().Args[0]) == timer {
+								arming[call] = true
+							}
+						})
+					}
+				}
+			}
+			if len(arming) == 0 {
+				c.fail("GBNHS-6", key, instrPos(sel), "the timeout channel of this wait is neither time.After(...) nor the channel of a timer that is Reset in this function")
+				continue
+			}
+			again := pathExists(sel, sel, func(i2 ssa.Instruction) bool { return arming[i2] })
+			c.decide(!again, "GBNHS-6", key, instrPos(sel), "every path from this wait back to it arms the timeout anew",
+				"the wait can be re-entered with a timeout that is not re-armed (e.g. after it fired once): a second lost SYN or SYN reply blocks the handshake forever")
+		}
+	})
 }
